@@ -1,9 +1,9 @@
-import Ledger.Proofs.InterpStmt
+import Ledger.Proofs.InterpAllot
 import Ledger.Proofs.MachineResolve
 
 /-!
 The whole run: metadata statements, statement lists, the two front ends, and the
-agreement theorem of the two models on F1 (`agree_F1`).
+agreement theorems of the two models on F2 and F1 (`agree_F2`, `agree_F1`).
 -/
 namespace Ledger.Interp
 open Ledger.Machine
@@ -67,7 +67,7 @@ theorem stmt_sim {env ienv : Env} (heq : EnvEq env ienv) (henv : EnvOK env)
   | send mon src dst =>
     cases src with
     | src s => exact send_sim heq henv hwf hin h
-    | allot items => simp [stmtWf] at hwf
+    | allot items => exact send_allot_sim heq henv hwf hin h
   | sendAll ae src dst =>
     cases src with
     | src s => exact sendAll_sim heq henv hwf hin h
@@ -197,9 +197,9 @@ def Agree (m : Except Err Machine.Result) (i : Except String Interp.Result) : Pr
     rm.accMeta.map (fun x => (x.1, x.2.1, valStr x.2.2)) = ri.accMeta
   | _, _ => False
 
-theorem agree_F1 (s : Script) (inp : Input) (h : InF1 s inp = true) :
+theorem agree_F2 (s : Script) (inp : Input) (h : InF2 s inp = true) :
     Agree (sem Cfg.fixed s inp) (Interp.run s inp) := by
-  simp only [InF1, whyNotF1, decide_eq_true_eq] at h
+  simp only [InF2, whyNotF2] at h
   cases htc : typecheck s with
   | error e => simp [htc] at h
   | ok ds =>
@@ -279,5 +279,10 @@ theorem agree_F1 (s : Script) (inp : Input) (h : InF1 s inp = true) :
               simp only [badPosting, Bool.or_eq_false_iff, decide_eq_false_iff_not] at this
               omega
     · simp [hfa] at h
+
+theorem agree_F1 (s : Script) (inp : Input) (h : InF1 s inp = true) :
+    Agree (sem Cfg.fixed s inp) (Interp.run s inp) := by
+  simp only [InF1, Bool.and_eq_true] at h
+  exact agree_F2 s inp h.1
 
 end Ledger.Interp
